@@ -34,7 +34,10 @@ TEXT = {
               '(incFuel_succ). Closed form (include_denotation, include_denotation_run, include_denotation_mk): when the argument '
               'evaluates to a string, the joined path has a source on disk or (only if no such file exists) in the cache, the '
               'source compiles and renders normally with a copy of the current variables to out, the include node is exactly '
-              'one write of out to the includer\'s writer and leaves the variables as they were. Tie: the `incl` stream answers every case (disk-only layouts as `render` lines, layouts with '
+              'one write of out to the includer\'s writer and leaves the variables as they were. From source bytes (Proofs.C14Source): the source '
+              '{% include "name" %} (either quote, any good delimiters), on a file system where dir(path)/name holds a source that run as a '
+              'template of its own (includer\'s variables, the tag\'s line, fuel one less) returns out, makes run return exactly out '
+              '(include_source); between two texts the output stands in place, T1 out T2 (include_between_texts_source). Tie: the `incl` stream answers every case (disk-only layouts as `render` lines, layouts with '
               'cached sources as `incl` lines) by the model and the real engine, plus model-independent oracles: reference '
               'include, inlined output, error table, precedence table.'),
     "design_ref": 'DESIGN.md 6 C14',
